@@ -64,6 +64,10 @@ def cases(tier, seed):
                 if ords == (3, 2, 4) and alpha not in (0., 30.):
                     continue
             out.append(dict(kind='k0', model=model, alpha=alpha, geo=geo, lam=lam, ords=list(ords), edge=edge, classical=classical, seed=seed))
+            if ords == (2, 2, 2) and lam == 'general' and geo == 'g1' and edge == 'inf' and alpha in (0., 30.):
+                # other sets of prescribed amplitudes: shortening only (non-contiguous set), rotation only, both, neither
+                for pd in ('C', 'T', 'CT', 'neither'):
+                    out.append(dict(kind='k0', model=model, alpha=alpha, geo=geo, lam=lam, ords=list(ords), edge=edge, classical=classical, pd=pd, seed=seed))
         for alpha0geo in ('g1', 'g2'):
             out.append(dict(kind='cyl', model=model, geo=alpha0geo, seed=seed))
         for alpha in (0., 30.):
@@ -117,6 +121,9 @@ def cfg_of(case, s=40):
     m1, m2, n2 = case.get('ords', (2, 2, 2))
     cfg = dict(model=case['model'], alphadeg=case.get('alpha', 0.0), r2=r2, H=H, m1=m1, m2=m2, n2=n2, s=s,
                stack=LAMS[case.get('lam', 'general')])
+    pd = case.get('pd')
+    if pd:
+        cfg.update(pdC=('C' in pd), pdT=('T' in pd))          # the load-asymmetry amplitude is always prescribed (the package refuses pdLA=False)
     e = case.get('edge', 'inf')
     if e != 'inf':
         val = 0.0 if e == 'zero' else None
@@ -295,10 +302,9 @@ def check_redef(case):
             cc.plyts = []
         elif c == 'r2':
             cc.r2 = 0.31
-            cc.r1 = None
         elif c == 'alphadeg':
             cc.alphadeg = cc.alphadeg + 12.0
-            cc.r1, cc.L = None, None
+            cc.L = None             # the shell is defined by (r2, H): the meridional length follows the new angle
         elif c == 'edge':
             cc.kuBot, cc.kphixTop = 2.0e6, 7.0e2
         elif c == 'loads':
